@@ -1,8 +1,10 @@
 import Clikit.Drv.C01
 import Clikit.Model.Help
 import Clikit.Model.HelpWrap
+import Clikit.Model.HelpWired
 /-! Driver entries of the help-page model: `c13.app_help`, `c13.command_help`, `c13.target`,
-`c13.wrap`, `c13.all` (all of a case in one request).  Pages are rendered with `wrapH`. -/
+`c13.wrap`, `c13.all` (all of a case in one request), `c13.wired` (do the structural hypotheses of
+`Props/C13.help_same_page_default` hold for the tree?).  Pages are rendered with `wrapH`. -/
 namespace Clikit.Drv.C13
 open Lean Clikit.Drv Clikit.Parser Clikit.Help
 
@@ -102,6 +104,11 @@ def handle (m : String) (j : Json) : Option (R Json) :=
       let cv ← C01.convOf j
       return Json.mkObj [("app", appPage app w), ("cmds", jList (cmdPage app w) paths),
                          ("targets", jList (targetOf cv app w) lines)]
+  | "c13.wired" => some do
+      -- the hypotheses of `help_same_page_default`, decided on the tree the resolver works on
+      let app ← appOf (← field j "app")
+      let tree := toCmd.toCmds app.cmds
+      return Json.mkObj [("-h", Json.bool (wiredB tree (S "-h"))), ("--help", Json.bool (wiredB tree (S "--help")))]
   | "c13.wrap" => some do
       let w ← fNat j "width"
       let t ← fChars j "text"
